@@ -1595,3 +1595,34 @@ def certain_mutation(an, e):
         return False
     # passed to a function that mutates its parameter: certain only if the callee's own mutation is a definite form
     return must_carry(an, fn, recv, e["node"], e["state"]) is not None
+
+
+def callee_closure(an, key, limit=400):
+    """Keys of the package functions reachable from `key` through resolved calls (transitively)."""
+    cache = getattr(an, "_closure", None)
+    if cache is None:
+        cache = an._closure = {}
+        an._callees = {}
+        for fn in an.fns.values():
+            out = set()
+            for n in fn.own:
+                if isinstance(n, ast.Call):
+                    k = an.resolve_call(fn, n)
+                    if k is not None:
+                        out.add(k)
+            # nested functions run as part of their parent
+            for k2, g in an.fns.items():
+                if g.parent == fn.key():
+                    out.add(k2)
+            an._callees[fn.key()] = out
+    if key in cache:
+        return cache[key]
+    seen, stack = set(), [key]
+    while stack and len(seen) < limit:
+        k = stack.pop()
+        for c in an._callees.get(k, ()):
+            if c not in seen:
+                seen.add(c)
+                stack.append(c)
+    cache[key] = seen
+    return seen
